@@ -349,6 +349,8 @@ func ZZ_C09_truthjwt() {
 // different, active access token; an inactive answer carries nothing but active=false.
 func caller(historyKinds int, formBearer bool) {
 	s := &st{w: world.NewX(world.XOptions{}), l: &world.Ledger{}}
+	// a registered PUBLIC client: it has no credentials, so naming it in a Basic header authenticates nobody
+	s.w.Store.Clients["C1"] = &fosite.DefaultClient{ID: "C1", Public: true, GrantTypes: []string{"authorization_code"}, Scopes: []string{"photos"}}
 	s.codeGrant("c1", []string{"offline", "photos"})
 	s.ccGrant("c2", []string{"mail"})
 	switch zz.Choice("history", historyKinds) {
